@@ -45,7 +45,7 @@ def lit_interval(lit):
 def lit_text(lit):
     sep = lit.get("sep", "-")
     y, m, d = lit["date"]
-    t = "%04d%s%02d%s%02d" % (y, sep, m, sep, d)
+    t = ("%04d%s%d%s%d" if lit.get("unpadded") else "%04d%s%02d%s%02d") % (y, sep, m, sep, d)
     if lit.get("h") is not None:
         t += " %02d" % lit["h"]
         if lit.get("mi") is not None:
@@ -94,7 +94,7 @@ class Check:
         else:
             d = rng.choice([[1969, 12, 31], [1965, 7, 4], [2017, 5, 1], [2020, 2, 29], [2021, 12, 31], [2022, 1, 1], [2019, 3, 31], [2023, 10, 29], [2016, 2, 28], [2024, 6, 30], [1999, 12, 31], [2038, 1, 19]])
             prec = rng.choice(["day", "hour", "minute", "second"])
-            lit = {"date": d, "sep": rng.choice(["-", "-", ":"]), "quoted": True}
+            lit = {"date": d, "sep": rng.choice(["-", "-", ":"]), "quoted": True, "unpadded": rng.random() < 0.2}
             if prec != "day":
                 lit["h"] = rng.choice([0, 9, 15, 23])
                 if prec != "hour":
